@@ -149,3 +149,4 @@ CFG.setdefault('trusted_extra', []).append(
     'shard/shard.go: cache transaction created before the storage transaction, used inside it only by NewIndexManager, settled '
     'after it with Commit(true) iff it returned an error; exits 3 on any other shape); c09_writer_follows_bracket ties the model writer to it')
 
+CFG['rule'] = CFG['rule'] + ' ' + 'The stress runs have one more client that keeps calling Shard.Info. Forced runs, phase C (nothing concurrent): on a sparse graph of 500 points, on caches created by an earlier finished read transaction, six searches from other regions and six exact-regime searches (pre-filter of 12 live points, limit 12: exactly those must come back). Within one run a failure code that is not a known symptom is reported in preference to one that is.'
